@@ -36,6 +36,8 @@ def jobs(tier):
     for i in range(len(ROLE_STRINGS)):
         js.append(('roles', i))
     js += leafspell.jobs() + inlinespell.jobs()
+    step = 0x110000 // 64
+    js += [('sweep', lo, min(lo + step, 0x110000), tier) for lo in range(0, 0x110000, step)]
     return js
 
 
@@ -97,6 +99,26 @@ def run_job(job):
                 if x is not None:
                     run_text(r, x[0])
         r.sample(dict(space=job[0], family=job[1]), 1)
+    elif job[0] == 'sweep':
+        # every Unicode code point as document text (thorough; quick: every code point of the categories P, S, Z, C and every
+        # one that a Unicode normalisation form or a case mapping turns into something else - a renderer that folds
+        # characters could produce a LaTeX special from them)
+        import unicodedata
+        _, lo, hi, tier = job
+        for cp in range(lo, hi):
+            if 0xD800 <= cp <= 0xDFFF:
+                continue
+            c = chr(cp)
+            if c in '\n\r\x0b\x0c\x1c\x1d\x1e\x85\u2028\u2029':
+                continue
+            if tier == 'quick':
+                cat = unicodedata.category(c)
+                if not (cat[0] in 'PSZC' and cat != 'Co' and cat != 'Cn' or unicodedata.normalize('NFKC', c) != c or unicodedata.normalize('NFKD', c) != c
+                        or c.upper() != c and len(c.upper()) > 1 or c.casefold() != c.lower()):
+                    continue
+            for t in ('x' + c + 'y\n', '*x ' + c + '*\n'):
+                run_text(r, t)
+        r.sample(dict(space='code point sweep', range='U+%04X..U+%04X' % (lo, hi - 1), templates=['x{c}y', '*x {c}*']), 1)
     elif job[0] == 'roles':
         for key, text in spaces.role_documents([ROLE_STRINGS[job[1]]]):
             run_text(r, text)
